@@ -205,6 +205,23 @@ class Iterator:
 
 
 _LUT_CACHE = {}
+_TRANSCENDENTAL = {"cos", "sin", "arccos", "exp", "sqrt", "pow", "atan2", "log10"}
+
+
+def _has_transcendental(goal, pc):
+    seen = set()
+    stack = [goal] + list(pc)
+    while stack:
+        e = stack.pop()
+        i = e.get_id()
+        if i in seen:
+            continue
+        seen.add(i)
+        if z3.is_app(e):
+            if e.decl().kind() == z3.Z3_OP_UNINTERPRETED and e.num_args() > 0 and e.decl().name() in _TRANSCENDENTAL:
+                return True
+            stack.extend(e.children())
+    return False
 
 
 class Obligation:
@@ -239,6 +256,8 @@ class Engine:
         self.current_label = None
         self.contract_uses = {}
         self._aff_mark = 0
+        self.backend = "z3"
+        self.real_boxes = {}
 
     # -------------------------------------------------------------- path exploration
     def explore(self, run_once, max_paths=5000):
@@ -267,7 +286,10 @@ class Engine:
                 rec["status"] = "ok"
                 rec["result"] = out
             except PathInfeasible:
-                continue
+                if not self.check_results:
+                    continue
+                rec["status"] = "ok"
+                rec["result"] = None
             except PyExc as e:
                 rec["status"] = "raise"
                 rec["exc"] = e.cls
@@ -366,7 +388,50 @@ class Engine:
         c = self.truth(cond)
         if self.merge_depth:
             raise MergeAbort()
-        status, model, secs, backend = self.ps.prove(c, self.timeout_ms)
+        status = None
+        if self.backend == "ivbb" and c is not True and c is not False and _has_transcendental(c, self.ps.pc):
+            from . import ivbb
+            import time as _t
+            t0 = _t.time()
+            st, info = ivbb.prove(self.ps.pc, c, self.real_boxes, budget_s=max(10, self.timeout_ms / 1000.0))
+            secs = _t.time() - t0
+            backend = "ivbb"
+            model = None
+            self.trusted.add("A3: numpy/libm elementary functions within 4 ulp, + - * / correctly rounded (interval "
+                             "enclosures widened accordingly); mpmath interval arithmetic")
+            if st == "proved":
+                status = "proved"
+            elif st == "refuted":
+                status = "refuted"
+                from fractions import Fraction as _F
+                rec_model = {}
+                for n, dec in self.input_decoders.items():
+                    if n in info["witness"]:
+                        rec_model[n] = {"frac": str(_F(info["witness"][n]))}
+                    else:
+                        try:
+                            rec_model[n] = dec(None)        # Choice / fixed inputs ignore the model
+                        except Exception:
+                            rec_model[n] = "<not part of the interval witness>"
+                rec = {"label": label, "status": status, "seconds": round(secs, 4), "backend": backend,
+                       "model": rec_model}
+                self.check_results.append(rec)
+                return status
+            else:
+                # z3 may still prove it with the functions uninterpreted (sound); its `sat` is not
+                # meaningful for uninterpreted transcendental functions
+                status2, model2, secs2, backend2 = self.ps.prove(c, min(self.timeout_ms, 10000))
+                secs += secs2
+                if status2 == "proved":
+                    status, backend = "proved", backend2
+                else:
+                    status, backend = "unknown", "ivbb+z3"
+                    self.check_results.append({"label": label, "status": "unknown", "seconds": round(secs, 4),
+                                               "backend": backend, "detail": info})
+                    self.ps.add(c)
+                    return status
+        if status is None:
+            status, model, secs, backend = self.ps.prove(c, self.timeout_ms)
         if backend == "trivial":
             # decided without a solver call: by GF(2)-affine normal forms (bits.py) when the
             # comparison went through the bit domain, else by term identity after simplification
@@ -376,6 +441,10 @@ class Engine:
         if status == "refuted":
             rec["model"] = self.extract_inputs(model)
         self.check_results.append(rec)
+        if c is False and status == "proved":
+            # "false" was proved: the path condition is unsatisfiable (an infeasible path that the
+            # cheap feasibility check could not prune) - nothing further can happen on it
+            raise PathInfeasible()
         if c is not True and status != "refuted":
             self.ps.add(c if c is not False else z3.BoolVal(False))
         return status
@@ -496,7 +565,16 @@ class Engine:
                     cb = [0] * (w - len(cb)) + cb
                     cb_ = B.cond_to_bit(c)
                     cells = [B.bite(cb_, V.cell_bit(x), V.cell_bit(y)) for x, y in zip(ca, cb)]
-                    return int_from_cells(cells)
+                    r = int_from_cells(cells)
+                    a_expl = isinstance(a, int) or a._term is not None
+                    b_expl = isinstance(b, int) or b._term is not None
+                    if a_expl and b_expl and isinstance(r, SInt):
+                        # both sides have an arithmetic view that does not come from their bits:
+                        # keep it as a plain If-term (the bit view stays available for bit operations)
+                        la, ha = bounds(a)
+                        lb, hb = bounds(b)
+                        r = SInt(z3.If(c, to_z3_num(a)[0], to_z3_num(b)[0]), r.cells, min(la, lb), max(ha, hb))
+                    return r
                 la, ha = bounds(a)
                 lb, hb = bounds(b)
                 lo = min(la, lb) if la is not None and lb is not None else None
